@@ -871,6 +871,10 @@ class Model(CallsMixin, BuiltinsMixin):
             return TUPLE([INT(d) if d is not None else INT()
                           for d in base.dims])
         if attr == 'T':
+            if base.k == 'top':
+                # only an array has .T: the result is an array (of unknown
+                # shape), in particular it is not None
+                return ARR(None, None, taint=base.taint, org=base.org)
             if base.dims is None:
                 return base.copy()
             # (src is kept by copy())
